@@ -205,4 +205,39 @@ PROPS = {
         'trusted_base': [],
         'assumptions': [],
     },
+    'C04': {
+        'lean_targets': ['Cqos.Props.C04'],
+        'theorems': ['Cqos.C04.tstep_inv', 'Cqos.C04.trun_inv', 'Cqos.C04.c04_item_time', 'Cqos.C04.c04_cumulative',
+                     'Cqos.C04.c04_batches'],
+        'runs': [{'cmd': 'lstepper', 'args': ['-family', 'mixed']}],
+        'monitor_prefix': ['C04'],
+        'level': 'proof',
+        'level_text': ('Lean theorems on the limit machine for every action list (every arrival pattern and consumer speed): the '
+                       'i-th element leaves no earlier than t0 + floor(i/Quantity)*Interval, hence at most '
+                       'Quantity*(floor((T-t0)/Interval)+1) elements have left by reading T; a batch forwards at most Quantity '
+                       'elements. The runtime assumptions (monotone clock; time.Sleep(d) returns no earlier than d) are enabling '
+                       'conditions of the machine. pass() and delay() are tied by the stepper (delay measured never to return early)'),
+        'level_note': ('partial: ClockOK is assumed of the Go runtime; the window form (floor(W/Interval)+2) is implied by the batch '
+                       'spacing but only the cumulative form is kernel-proved; loop/transfer glue is covered by black-box runs and facts'),
+        'rule': 'scripts of feed/closein/pass/delay over Quantity 1..100, Interval 0.2..2 ms, element counts 0, <Q, =Q, multiples, random',
+        'trusted_base': ['verif hook stepper for limit'],
+        'assumptions': ['ClockOK: monotone clock, Sleep(d) lasts at least d'],
+    },
+    'C12': {
+        'lean_targets': ['Cqos.Props.C12'],
+        'theorems': ['Cqos.C12.lstep_inv', 'Cqos.C12.lrun_inv', 'Cqos.C12.c12_passthrough', 'Cqos.C12.c12_close',
+                     'Cqos.C12.c12_no_pause_small', 'Cqos.C12.c12_sleep_count'],
+        'runs': [{'cmd': 'lstepper', 'args': ['-family', 'mixed']}],
+        'monitor_prefix': ['C12'],
+        'level': 'proof',
+        'level_text': ('Lean theorems on the limit machine for every action list: the sent elements are always an in-order prefix of '
+                       'the received ones and exactly them at termination; termination happens only through a receive that reports '
+                       'the input closed and empty; fewer than Quantity elements cause no sleep at all; exactly one sleep of at most '
+                       'Interval per completed batch of Quantity elements. Tied by the stepper on pass()/delay()'),
+        'level_note': ('partial: "within about ceil(N/Quantity) intervals" additionally needs Sleep not to oversleep - a runtime fact '
+                       'checked with slack by the black-box runs, not proved'),
+        'rule': 'as C04',
+        'trusted_base': ['verif hook stepper for limit'],
+        'assumptions': [],
+    },
 }
